@@ -33,6 +33,7 @@ type mnode struct {
 	attrs    []srcKV
 	skip     int
 	ctxKeys  []string
+	skipKids map[int]*slog.Entry
 	normal   []string // writer ids; nil = package default (stdout)
 	errs     []string // nil = package default (stderr)
 	depth    int
@@ -57,7 +58,8 @@ func (e *c10env) sharedAttrs(r *gen.R) *sharedAttrsT {
 }
 
 type c10env struct {
-	shared []*sharedAttrsT
+	skipClash string
+	shared    []*sharedAttrsT
 	log   *mon.Log
 	pool  []io.Writer
 	fds   *fdCapture
@@ -211,7 +213,7 @@ func (e *c10env) ops() []c10op {
 	}
 	return []c10op{
 		{"New(name)", func(e *c10env, t *mnode) (*mnode, *slog.Entry, bool) {
-			name := gen.Pick(r, []string{"alpha", "beta", "gamma", "alpha", "db", "x"})
+			name := gen.Pick(r, []string{"alpha", "beta", "gamma", "alpha", "db", "x", " alpha", "alpha ", "db\t", "  ", "Alpha", "alpha.1"})
 			var opts []any
 			var post []func(n *mnode)
 			if r.P(40) {
@@ -351,6 +353,15 @@ func (e *c10env) ops() []c10op {
 		{"WithSkip", func(e *c10env, t *mnode) (*mnode, *slog.Entry, bool) {
 			k := r.Intn(3)
 			ent := t.e.WithSkip(k)
+			if t.skipKids == nil {
+				t.skipKids = map[int]*slog.Entry{}
+			}
+			for k2, e2 := range t.skipKids {
+				if (k2 == k) != (e2 == ent) {
+					e.skipClash = fmt.Sprintf("WithSkip(%d) and WithSkip(%d) on %q returned %s child", k, k2, t.name, map[bool]string{true: "the same", false: "different"}[e2 == ent])
+				}
+			}
+			t.skipKids[k] = ent
 			n := e.withChild(t, ent)
 			n.skip = k
 			return n, ent, false
@@ -593,9 +604,18 @@ func c10tree(c *Ctx) {
 		n1 := e.add(nil, r1.Root())
 		r2 := slog.New()
 		n2 := e.add(nil, r2.Root())
-		def := slog.New("def")
-		slog.SetDefault(def)
-		n3 := e.add(nil, slog.Default().Root())
+		var n3 *mnode
+		if idx == c.From && c.Only < 0 {
+			// the first case of every child works on the library's own built-in default logger (whatever it
+			// shares with the package-level state shows here); its level is the package default
+			n3 = e.add(nil, slog.Default().Root())
+			n3.level = slog.Default().Level()
+			c.R.Add("cases_on_the_builtin_default_logger", 1)
+		} else {
+			def := slog.New("def")
+			slog.SetDefault(def)
+			n3 = e.add(nil, slog.Default().Root())
+		}
 		for _, n := range []*mnode{n1, n2, n3} {
 			if n.level != pkgLevel || n.format != FColor || n.parent != nil {
 				c.R.Violation(idx, "package-new", "C10/package-new", "model construction", nil)
@@ -627,6 +647,10 @@ func c10tree(c *Ctx) {
 			c.R.JournalNote(history[len(history)-1])
 			created, ret, mutates := op.apply(e, t)
 			c.R.Add("operations", 1)
+			if e.skipClash != "" {
+				fail("withskip-one-child-per-n", e.skipClash)
+				return
+			}
 			c.R.Distinct("operation_kinds", op.name)
 			// return value
 			if mutates && ret != t.e {
